@@ -4,7 +4,7 @@ import ast
 
 from sa import AnalysisError
 from sa.kinds import (key, utext, call_name, recv_text, calls_in, node_calls, canon_compare, oriented,
-                      loop_body_exits_early, all_stores)
+                      loop_body_exits_early, all_stores, sbody)
 from sa.cfg import walk_calls, walk_nodes
 
 EXPLANATION = (
@@ -188,7 +188,7 @@ def run(ctx, rep):
 
     # ------------------------------------------------------------------ R4 no immediate execution
     pop = prog.own_method("FlumineSimulation", "process_order_package")
-    body = [utext(s) for s in pop.node.body if not (isinstance(s, ast.Expr) and isinstance(s.value, ast.Constant))]
+    body = [utext(s) for s in sbody(pop.node.body)]
     rep.check(body == ["self.handler_queue.append(%s)" % pop.params[1]], "R4",
               key(pop, None, "a simulated request is only queued"), pop, None, str(body))
     sim_cls = prog.cls("FlumineSimulation")
@@ -258,7 +258,7 @@ def release_loop(ctx, rep, R):
         for x, c2 in via:
             lst = recv_text(c2)
             for lp in walk_nodes(f.node.body, ast.For):
-                if utext(lp.iter) == lst and [utext(s) for s in lp.body] == ["self.handler_queue.remove(%s)" % utext(lp.target)]:
+                if utext(lp.iter) == lst and [utext(s) for s in sbody(lp.body)] == ["self.handler_queue.remove(%s)" % utext(lp.target)]:
                     drained = True
         rep.check(bool(direct) or drained, R, key(f, c, "exactly the released packages leave the queue"), f, c)
 
@@ -337,7 +337,7 @@ def clock_lint(ctx, rep, R):
     rep.check(utext(nd.node.body[-1]) == "return config.current_time" and nd.is_classmethod, R,
               key(nd, None, "the patched utcnow returns the simulated time"), nd)
     sc = prog.own_method("SimulatedDateTime", "__call__")
-    rep.check([utext(s) for s in sc.node.body] == ["config.current_time = %s" % sc.params[1]], R,
+    rep.check([utext(s) for s in sbody(sc.node.body)] == ["config.current_time = %s" % sc.params[1]], R,
               key(sc, None, "setting the clock stores the publish time"), sc)
     ct = [(fn.qual) for fn, s, t, kind in all_stores(prog, "current_time")]
     rep.check(set(ct) <= {"SimulatedDateTime.__call__", "SimulatedDateTime.reset_real_datetime", "SimulatedDateTime.__enter__"},
